@@ -223,6 +223,27 @@ pub fn main(tier: Tier, _replay: Option<String>) -> i32 {
         let file = f["acquired"]["file"].as_str().unwrap_or("");
         let func = f["acquired"]["fn"].as_str().unwrap_or("");
         let all_held: Vec<String> = f["all_held"].as_array().map(|a| a.iter().filter_map(|x| x.as_str().map(|s| s.to_string())).collect()).unwrap_or_default();
+        if class == "reacquire-read" {
+            // a second read guard blocks behind a queued writer (the lock is fair): a deadlock risk
+            // only in a binary in which some task takes this lock for writing
+            let writers = sites.iter().any(|s| s["lock"] == acq && s["mode"] == "write" && {
+                let f = s["file"].as_str().unwrap_or("");
+                f.starts_with("saito-core/") || f.starts_with(&format!("{}/", krate))
+            });
+            if !precise {
+                rep.outcome("listed:reacquire-read-through-unconfirmed-call");
+            } else if krate == "saito-wasm" && all_held.iter().any(|h| h == "SAITO:w") {
+                rep.outcome("wasm:reacquire-read-under-global-mutex");
+            } else if !writers {
+                rep.outcome("exempt:reacquire-read-of-a-lock-nobody-writes-in-that-binary");
+            } else {
+                let k = format!("read-guard-taken-twice/{}/{}:{}", acq, file, func);
+                if seen_keys.insert(k.clone()) {
+                    rep.violate(&k, format!("{} is read-locked at {}:{} while the same task already holds a read guard on it; a writer queued in between blocks the second request forever", acq, file, f["acquired"]["line"]), f.clone());
+                }
+            }
+            continue;
+        }
         if class != "inversion" {
             if precise && class == "reacquire" {
                 let k = format!("self-deadlock/{}/{}:{}", acq, file, func);
